@@ -50,6 +50,17 @@ func c06Case(c *rep.Ctx, r c06Replay) {
 	before := fsx.Snapshot(j.Root)
 	var err error
 	opts := []gtree.Option{gtree.WithTargetDir(target), gtree.WithFileExtensions(r.Exts)}
+	switch r.Target {
+	case "cwd-empty-option", "cwd-no-option":
+		// the documented default: the current directory (no option, or an empty string)
+		wd, _ := os.Getwd()
+		os.Chdir(target)
+		defer os.Chdir(wd)
+		opts = []gtree.Option{gtree.WithFileExtensions(r.Exts), nil}
+		if r.Target == "cwd-empty-option" {
+			opts = append(opts, gtree.WithTargetDir(""))
+		}
+	}
 	pan := sut.Guard(func() {
 		if r.Route == "root" {
 			err = gtree.MkdirFromRoot(sut.BuildRoot(f[0]), opts...)
@@ -163,6 +174,17 @@ func init() {
 						b := base
 						b.Target = "missing"
 						c06Case(c, b)
+						if n <= 3 {
+							for _, tg := range []string{"cwd-empty-option", "cwd-no-option"} {
+								b := base
+								b.Target = tg
+								c06Case(c, b)
+								if len(f) == 1 {
+									b.Route = "root"
+									c06Case(c, b)
+								}
+							}
+						}
 						// pre-existing roots: every non-empty subset of at most 2 roots, as directory and as file; plus unrelated entries
 						b = base
 						b.Pre = map[string]byte{"unrelated/keep": 'f', "zzz": 'd'}
